@@ -358,7 +358,14 @@ func c07Read(c *Ctx) {
 	// longer reads: whatever block-wise shortcut the loop takes, every byte must go through the automaton
 	{
 		var lp []string
-		for _, nn := range []int{7, 8, 9, 15, 16, 17, 24, 25, 33} {
+		lens := []int{7, 8, 9, 15, 16, 17, 24, 25, 33}
+		if c.Tier == "thorough" {
+			lens = lens[:0]
+			for i := 1; i <= 72; i++ {
+				lens = append(lens, i)
+			}
+		}
+		for _, nn := range lens {
 			nn := nn
 			m2 := c.machine()
 			addBinaryModels(m2)
